@@ -1,9 +1,11 @@
 import Sonic.Model.Itoa
 import Sonic.Spec.Decimal
 import Sonic.Spec.Rne
+import Sonic.Spec.Shortest
 import Sonic.Model.Quote
 import Sonic.Model.Memcmp
 import Sonic.Model.StringDec
+import Sonic.Model.Ftoa
 
 /-!
 # Line-protocol driver (`sonic_model`)
@@ -58,6 +60,21 @@ def stepLocal (toks : List String) : String :=
       | some b => toString b
       | none => "inf"
     | _, _ => "bad-op"
+  | ["f64chk", n, hx] =>
+    -- property oracle for C07 on an arbitrary printed text (used when the implementation's text differs from the model's)
+    match n.toNat?, parseHex hx with
+    | some bits, some text =>
+      if bits < 2 ^ 64 then
+        let cq := Sonic.Spec.Shortest.cqOfBits bits
+        match Sonic.Spec.Shortest.parseDecText text with
+        | none => "chk=0 rt=0 notnumber"
+        | some (neg, sig, exp) =>
+          let chk : Bool := if bits % 2 ^ 63 = 0 then sig == 0 else Sonic.Spec.Shortest.chk cq.1 cq.2 sig exp
+          let chk := chk && (neg == decide (bits ≥ 2 ^ 63)) && Sonic.Spec.Shortest.hasFracOrExp text
+          let rt : Bool := Sonic.Spec.Rne.round neg sig exp == some bits
+          s!"chk={if chk then 1 else 0} rt={if rt then 1 else 0}"
+      else "bad-op"
+    | _, _ => "bad-op"
   | ["spec-decimal", n] =>
     match n.toNat? with
     | some v => hexOf (Sonic.Spec.decimal v)
@@ -72,6 +89,7 @@ def step (st : DState) (line : String) : DState × String :=
   let toks := (line.trimAscii.toString.splitOn " ").filter (· ≠ "")
   match toks with
   | "quote" :: _ => (st, Sonic.Model.Quote.runLine st.W toks)
+  | "f64toa" :: _ => (st, Sonic.Model.Ftoa.runLine toks)
   | "memcmp" :: _ => (st, Sonic.Model.Memcmp.runLine toks)
   | "parsestr" :: _ => (st, Sonic.Model.StringDec.runLine st.W toks)
   | _ => (st, stepLocal toks)
